@@ -18,6 +18,8 @@ pub enum Hint {
     Exact,
     Zero,
     Partial,
+    /// honest but useless: no lower bound, an astronomically loose upper bound
+    LooseUpper,
 }
 
 pub struct HintIter<'a> {
@@ -45,6 +47,10 @@ impl Iterator for HintIter<'_> {
             Hint::Exact => (rem, Some(rem)),
             Hint::Zero => (0, None),
             Hint::Partial => (rem / 2, None),
+            // (usize::MAX, not a merely enormous bound: an implementation that reserves the upper
+            // bound then overflows - a catchable panic where overflow checks are on - instead of
+            // asking the allocator for exabytes, which aborts the whole process)
+            Hint::LooseUpper => (0, Some(usize::MAX)),
         }
     }
 }
